@@ -470,9 +470,11 @@ fn classify_incomplete(zone: &Zone, q: &[Vec<u8>], truth: &Truth, parts: &zb::Ne
         Truth::NoData { ent: true, .. } if q_cover_attached => "nsec-ent-nodata-rejected".into(),
         Truth::NxDomain { ce } => {
             let w_cover = model_cover(&chain, &wildcard_of(ce));
-            if q_cover_attached && !w_cover.is_some_and(attached) {
+            if q_cover_attached && !w_cover.is_some_and(attached) && q.len() > ce.len() + 1 {
                 // the server picks the NSEC around the *parent* of qname, not the one covering
-                // the wildcard at the closest encloser
+                // the wildcard at the closest encloser: a deviation only when the closest encloser
+                // lies above the parent (when it IS the parent, the NSEC around the parent is the
+                // right one, and its absence is a different defect)
                 "nsec-server-proof-lacks-closest-encloser-wildcard-cover".into()
             } else {
                 "nsec-incomplete-nxdomain".into()
